@@ -4,6 +4,7 @@ import Proofs.C09Parse
 import Proofs.C09Routing
 import Proofs.C09Names
 import Proofs.C09Placed
+import Proofs.C09Cache
 /-!
 # C09 — partition tokens equal the ones Cassandra computes (property theorems)
 
@@ -484,5 +485,81 @@ example : (Murmur.Placed.place [9] [2, 3] [4] 1).wf ∧ (Murmur.Placed.place [9]
 /-- test vector (labelled as a test): "hello" at offset 3 between foreign bytes -/
 example : (Murmur.Placed.murmur3H1 (Murmur.Placed.place [0xff, 0xff, 0xff] [0x68, 0x65, 0x6c, 0x6c, 0x6f] [0xff, 0xff] 1)).toInt
     = -3758069500696749310 := by decide
+
+/-! ## the routing-key info cache (session.go `routingKeyInfoCache`, an LRU keyed by the statement text) over a HISTORY
+of one session: any number of statements, uses through Query / Batch (explicit keys, binding callbacks, empty batches),
+the connection going away and coming back, `Max(n)`, tables dropped and re-created with another partition key. -/
+
+section cache
+open RoutingCache
+variable {τ ν : Type}
+
+/-- the state after a history -/
+def cacheExec (enc : τ → ν → Routing.Enc) (s : State τ) (steps : List (Step τ ν)) : State τ :=
+  steps.foldl (fun s st => (step enc s st).2) s
+
+/-- FULL STATEMENT (not provable for the unchanged code — KF-C09-2, KF-C09-3, counterexamples below): for EVERY history
+    `run enc s steps = Spec.run enc s.stmts steps`, i.e. every routing key is the one computed from what the server's
+    PREPARE answer and the schema say at that moment (which C09_routing_from_metadata / C09_routing_from_schema equate with
+    the framing of the values at the partition-key markers), whatever the cache holds.
+    PROVED for every history whose steps are all SAFE (`RoutingCache.safe`, decided along the run): no first use of a
+    statement while no connection is available, no change of a statement's key while the cache holds the statement. Any
+    number of statements, any cache size (evictions included), any interleaving of hits, misses, ErrNoMetadata outcomes,
+    unbound key columns, `Max(n)`, explicit keys and binding callbacks. -/
+theorem C09_cache_transparent_partial (enc : τ → ν → Routing.Enc) (s : State τ) (steps : List (Step τ ν))
+    (hc : Coherent s) (hs : safe enc s steps = true) :
+    run enc s steps = Spec.run enc s.stmts steps := run_safe enc steps s hc hs
+
+/-- …in particular from a new session (empty cache), for every cache size -/
+theorem C09_cache_transparent_new_session_partial (enc : τ → ν → Routing.Enc) (stmts : List (Stmt τ)) (max : Nat)
+    (steps : List (Step τ ν)) (hs : safe enc ⟨stmts, true, max, []⟩ steps = true) :
+    run enc ⟨stmts, true, max, []⟩ steps = Spec.run enc stmts steps :=
+  run_safe enc steps _ (by intro p hp; cases hp) hs
+
+/-- EVERY history (safe or not) keeps the cache within `MaxEntries` (`MaxRoutingKeyInfo`; 0 = no limit) -/
+theorem C09_cache_bounded (enc : τ → ν → Routing.Enc) (steps : List (Step τ ν)) :
+    ∀ s : State τ, (s.max ≠ 0 → s.lru.length ≤ s.max) →
+      (cacheExec enc s steps).max ≠ 0 → (cacheExec enc s steps).lru.length ≤ (cacheExec enc s steps).max := by
+  induction steps with
+  | nil => intro s h; exact h
+  | cons st rest ih =>
+    intro s h
+    exact ih _ (step_bounded enc s st h)
+
+/-- an explicit routing key wins and a binding callback / an empty batch gives no key, whatever the cache holds -/
+theorem C09_routing_front (enc : τ → ν → Routing.Enc) (s : State τ) (key : Routing.Bytes) (k : Nat) (vals : List ν) :
+    step enc s (.useExplicit key k vals) = (some (.res (.key (some key))), s) ∧
+    step enc s (.useBinding k : Step τ ν) = (some (.res .nokey), s) ∧
+    step enc s (.batchEmpty : Step τ ν) = (some (.res .nokey), s) := ⟨rfl, rfl, rfl⟩
+
+/-- the toy statement `… SET a = ? WHERE b = ?` of table t0 with key marker `i` -/
+def toyStmt (i : Nat) : Stmt Nat := ⟨⟨[⟨"a", 2⟩, ⟨"b", 2⟩], [i], "ks", "t0"⟩, none⟩
+
+/-- non-vacuity: a safe history with a hit, a second statement, an eviction (cache of ONE entry) and a re-computation -/
+example : safe toyEnc ⟨[toyStmt 0, toyStmt 1], true, 1, []⟩
+      [.use 0 [[1], [2]], .use 0 [[3], [4]], .use 1 [[5], [6]], .use 0 [[7], [8]]] = true ∧
+    run toyEnc ⟨[toyStmt 0, toyStmt 1], true, 1, []⟩
+      [.use 0 [[1], [2]], .use 0 [[3], [4]], .use 1 [[5], [6]], .use 0 [[7], [8]]]
+      = [some (.res (.key (some [0, 1]))), some (.res (.key (some [0, 3]))), some (.res (.key (some [0, 6]))),
+         some (.res (.key (some [0, 7])))] := by decide
+
+/-- COUNTEREXAMPLE (KF-C09-3, stale routing info): the statement is used (key marker 0), its table is dropped and
+    re-created with the OTHER column as partition key (the server now names key marker 1), the statement is used again:
+    the key is still built from marker 0. Replayed on the real code by the rkcx op of props/C09.findings.json. -/
+theorem C09_cex_cache_stale :
+    run toyEnc ⟨[toyStmt 0], true, 0, []⟩ [.use 0 [[1], [2]], .change 0 (toyStmt 1), .use 0 [[1], [2]]]
+      = [some (.res (.key (some [0, 1]))), none, some (.res (.key (some [0, 1])))] ∧
+    Spec.run toyEnc [toyStmt 0] [.use 0 [[1], [2]], .change 0 (toyStmt 1), .use 0 [[1], [2]]]
+      = [some (.res (.key (some [0, 1]))), none, some (.res (.key (some [0, 2])))] := by decide
+
+/-- COUNTEREXAMPLE (KF-C09-2, the "no connection available" error is cached): a first use of a statement while the
+    host is down, the host comes back, every later use still fails — the statement is never routed by token again. -/
+theorem C09_cex_cache_noconn :
+    run toyEnc ⟨[toyStmt 0], true, 0, []⟩ [.down, .use 0 [[1], [2]], .up, .use 0 [[1], [2]], .use 0 [[3], [4]]]
+      = [none, some .errNoConn, none, some .errNoConn, some .errNoConn] ∧
+    Spec.run toyEnc [toyStmt 0] [.up, .use 0 [[1], [2]], .use 0 [[3], [4]]]
+      = [none, some (.res (.key (some [0, 1]))), some (.res (.key (some [0, 3])))] := by decide
+
+end cache
 
 end C09
